@@ -167,6 +167,10 @@ func ext۰reflect۰SliceOf(fr *frame, args []value) value {
 	return makeReflectType(rtype{types.NewSlice(args[0].(iface).v.(rtype).t)})
 }
 
+func ext۰reflect۰PointerTo(fr *frame, args []value) value {
+	return makeReflectType(rtype{types.NewPointer(args[0].(iface).v.(rtype).t)})
+}
+
 func ext۰reflect۰TypeOf(fr *frame, args []value) value {
 	// Signature: func (t reflect.rtype) Type
 	return makeReflectType(rtype{args[0].(iface).t})
